@@ -338,6 +338,7 @@ func c15BothSucceed(c *core.Ctx, fn *ssa.Function, key string, br, both *ssa.Fun
 		default:
 			// conditions at the return
 			bothNil := map[string]bool{}
+			bothFailed := map[string]bool{}
 			eqForm := false
 			for _, cd := range facts.CondsAt(r.Block()) {
 				if x, isNil, okc := facts.NilCheck(cd); okc && isNil {
@@ -360,7 +361,12 @@ func c15BothSucceed(c *core.Ctx, fn *ssa.Function, key string, br, both *ssa.Fun
 						}
 					}
 				}
-				if bo, isBo := cd.V.(*ssa.BinOp); isBo && bo.Op == token.EQL && cd.Pos {
+				if x, isNil, okc := facts.NilCheck(cd); okc && !isNil {
+					if b, fld, isF := facts.FieldOf(facts.Resolve(x)); isF && fld == "err" {
+						bothFailed[errOwner(b)] = true
+					}
+				}
+				if bo, isBo := cd.V.(*ssa.BinOp); isBo && ((bo.Op == token.EQL && cd.Pos) || (bo.Op == token.NEQ && !cd.Pos)) {
 					l, okl := bo.X.(*ssa.BinOp)
 					rr, okr := bo.Y.(*ssa.BinOp)
 					if okl && okr && l.Op == token.EQL && rr.Op == token.EQL && facts.IsNilConst(l.Y) && facts.IsNilConst(rr.Y) && facts.Term(l.X) != facts.Term(rr.X) {
@@ -368,8 +374,8 @@ func c15BothSucceed(c *core.Ctx, fn *ssa.Function, key string, br, both *ssa.Fun
 					}
 				}
 			}
-			if len(bothNil) >= 2 || eqForm {
-				ok = true
+			if len(bothNil) >= 2 || eqForm || len(bothFailed) >= 2 {
+				ok = true // both succeeded, both failed, or "succeeded alike"
 			} else {
 				why = "a success can be reported on a path where it is not established that both members succeeded"
 			}
@@ -449,6 +455,10 @@ func c15Writer(c *core.Ctx, both, br *ssa.Function) {
 		}
 		c.Analysed(facts.FuncName(fn))
 		usesBoth, usesBR := false, false
+		// a private fan-out helper (`onBothWriters(w, op)`) that applies a callback to
+		// each member writer through both/bothResults stands for both of them
+		var fanOut *ssa.Function
+		fanOutCb := -1
 		for _, ci := range facts.CallsIn(fn) {
 			if sc := ci.Common().StaticCallee(); sc != nil {
 				if sc == both || sc.Origin() == both {
@@ -457,9 +467,49 @@ func c15Writer(c *core.Ctx, both, br *ssa.Function) {
 				if sc == br || sc.Origin() == br {
 					usesBR = true
 				}
+				h := sc
+				if o := h.Origin(); o != nil {
+					h = o
+				}
+				if cb, ok := writerFanOutHelper(h, both, br); ok {
+					usesBoth, usesBR = true, true
+					fanOut, fanOutCb = h, cb
+				}
 			}
 		}
 		delegates := false
+		if fanOut != nil {
+			for _, ci := range facts.CallsIn(fn) {
+				sc := ci.Common().StaticCallee()
+				if sc == nil || !(sc == fanOut || sc.Origin() == fanOut) || fanOutCb >= len(ci.Common().Args) {
+					continue
+				}
+				var lit *ssa.Function
+				switch cb := facts.Resolve(ci.Common().Args[fanOutCb]).(type) {
+				case *ssa.MakeClosure:
+					lit = cb.Fn.(*ssa.Function)
+				case *ssa.Function:
+					lit = cb // a literal that captures nothing
+				}
+				if lit == nil {
+					continue
+				}
+				for _, cj := range facts.CallsIn(lit) {
+					cc := cj.Common()
+					if !cc.IsInvoke() || cc.Method.Name() != name || !isNamed(cc.Value.Type(), "oci/ociregistry", "BlobWriter") {
+						continue
+					}
+					p, isP := facts.ResolveFree(cc.Value).(*ssa.Parameter)
+					argsOK := isP && p.Parent() == lit
+					for j, a := range cc.Args {
+						if !argIsParam(a, fn, j+1) {
+							argsOK = false
+						}
+					}
+					delegates = delegates || argsOK
+				}
+			}
+		}
 		for _, f := range facts.WithAnon(fn) {
 			for _, ci := range facts.CallsIn(f) {
 				cc := ci.Common()
@@ -484,7 +534,7 @@ func c15Writer(c *core.Ctx, both, br *ssa.Function) {
 							idxOK = true
 						}
 					}
-					delegates = argsOK && idxOK
+					delegates = delegates || (argsOK && idxOK)
 				}
 			}
 		}
@@ -681,4 +731,65 @@ func errOwner(b ssa.Value) string {
 		break
 	}
 	return facts.Term(b)
+}
+
+// writerFanOutHelper: h calls both and bothResults and, in the literal it hands
+// to both, calls one of its own parameters (a callback) with the member writer
+// selected by the literal's index parameter; returns that parameter's index.
+func writerFanOutHelper(h, both, br *ssa.Function) (int, bool) {
+	if h == nil || h.Blocks == nil || len(privateCallSites(h)) == 0 {
+		return -1, false
+	}
+	usesBoth, usesBR := false, false
+	for _, ci := range facts.CallsIn(h) {
+		if sc := ci.Common().StaticCallee(); sc != nil {
+			if sc == both || sc.Origin() == both {
+				usesBoth = true
+			}
+			if sc == br || sc.Origin() == br {
+				usesBR = true
+			}
+		}
+	}
+	if !usesBoth || !usesBR {
+		return -1, false
+	}
+	for _, f := range facts.WithAnon(h) {
+		if f == h {
+			continue
+		}
+		for _, ci := range facts.CallsIn(f) {
+			cc := ci.Common()
+			if cc.IsInvoke() || cc.StaticCallee() != nil || len(cc.Args) == 0 {
+				continue
+			}
+			p, ok := facts.ResolveFree(cc.Value).(*ssa.Parameter)
+			if !ok || p.Parent() != h {
+				continue
+			}
+			// the argument: w.w[i] with i the literal's own parameter
+			idxOK := false
+			switch a := facts.Strip(cc.Args[0]).(type) {
+			case *ssa.UnOp:
+				if ia, ok := a.X.(*ssa.IndexAddr); ok {
+					if q, ok := facts.ResolveFree(ia.Index).(*ssa.Parameter); ok && q.Parent() == f {
+						idxOK = true
+					}
+				}
+			case *ssa.Index:
+				if q, ok := facts.ResolveFree(a.Index).(*ssa.Parameter); ok && q.Parent() == f {
+					idxOK = true
+				}
+			}
+			if !idxOK {
+				continue
+			}
+			for i, q := range h.Params {
+				if q == p {
+					return i, true
+				}
+			}
+		}
+	}
+	return -1, false
 }
